@@ -38,10 +38,11 @@ const (
 	PSymlinkToFile   // the path is a symlink to an existing file with random bytes
 	PDanglingSymlink // the path exists as a directory entry, its target does not
 	PDirectory
+	PBoltDataNoSchema // a bbolt database with a bucket named "data" but without the schema key: what an interrupted writer, or somebody else's application, leaves
 	nPre
 )
 
-var preName = []string{"0-bytes", "random-bytes", "valid-index", "bbolt-non-index", "read-only valid-index", "symlink-to-file", "dangling-symlink", "directory"}
+var preName = []string{"0-bytes", "random-bytes", "valid-index", "bbolt-non-index", "read-only valid-index", "symlink-to-file", "dangling-symlink", "directory", "bbolt-with-data-bucket-but-no-schema"}
 
 type ClobberCase struct {
 	// FDExhaust: the process has no free file descriptor while Flush runs
@@ -114,6 +115,20 @@ func clobberOracle(c *ClobberCase) error {
 		if err := os.Mkdir(path, 0o755); err != nil {
 			return fmt.Errorf("INFRA: %v", err)
 		}
+	case PBoltDataNoSchema:
+		db, err := bbolt.Open(path, 0o644, nil)
+		if err != nil {
+			return fmt.Errorf("INFRA: %v", err)
+		}
+		db.Update(func(tx *bbolt.Tx) error {
+			b, _ := tx.CreateBucket([]byte("data"))
+			if len(c.Random)%2 == 0 {
+				b.Put([]byte("Vsomebody"), c.Random)
+				b.Put([]byte("I"), []byte{0, 0, 0, 9})
+			}
+			return b.Put([]byte("k"), c.Random)
+		})
+		db.Close()
 	case PBoltOther:
 		db, err := bbolt.Open(path, 0o644, nil)
 		if err != nil {
